@@ -10,7 +10,12 @@ from baize.datastructures import (
     QueryParams,
     UploadFile,
 )
-from baize.exceptions import MalformedJSON, MalformedMultipart, UnsupportedMediaType
+from baize.exceptions import (
+    HTTPException,
+    MalformedJSON,
+    MalformedMultipart,
+    UnsupportedMediaType,
+)
 from baize.multipart_helper import parse_stream as parse_multipart
 from baize.requests import MoreInfoFromHeaderMixin
 from baize.typing import Environ, StartResponse
@@ -64,8 +69,14 @@ class HTTPConnection(Mapping[str, Any], MoreInfoFromHeaderMixin):
     def url(self) -> URL:
         """
         The full URL of this request.
+
+        A `Host` header that cannot be the authority of a URL is a client
+        error: `HTTPException(400)`.
         """
-        return URL(environ=self._environ)
+        try:
+            return URL(environ=self._environ)
+        except ValueError:
+            raise HTTPException(400) from None
 
     @cached_property
     def path_params(self) -> Dict[str, Any]:
